@@ -399,7 +399,7 @@ func textLabels(t, text string) []string {
 
 func TestRandomTexts(t *testing.T) {
 	ev.SetChecks(ev.Scale(60000, 4000000))
-	rapid.Check(t, func(rt *rapid.T) {
+	ev.Check(t, func(rt *rapid.T) {
 		ty := gen.Pick(rt, []string{"decimal", "datetime", "datetime", "duration", "ip", "ip", "long"}, "type")
 		var text string
 		switch ty {
@@ -482,7 +482,7 @@ func genScalar(rt *rapid.T) ir.Value {
 
 func TestRandomScalars(t *testing.T) {
 	ev.SetChecks(ev.Scale(40000, 3000000))
-	rapid.Check(t, func(rt *rapid.T) {
+	ev.Check(t, func(rt *rapid.T) {
 		v := genScalar(rt)
 		if !run(&Case{Kind: "rt", V: &v}, "rt-random", scalarNT(v), []string{"rt:" + string(v.K)}, func(string, string) {}) {
 			rt.Fatalf("C12/rt-random: print -> parse does not return the value")
@@ -492,7 +492,7 @@ func TestRandomScalars(t *testing.T) {
 
 func TestRandomValues(t *testing.T) {
 	ev.SetChecks(ev.Scale(15000, 1500000))
-	rapid.Check(t, func(rt *rapid.T) {
+	ev.Check(t, func(rt *rapid.T) {
 		o := gen.ValOpts{Keys: gen.KeysHostile, MappedIP: true}
 		if gen.Chance(rt, 30, "smallkeys") {
 			o.Keys = gen.KeysSmall
@@ -575,7 +575,7 @@ func genFloatBits(rt *rapid.T) (uint64, bool) {
 
 func TestRandomConstructors(t *testing.T) {
 	ev.SetChecks(ev.Scale(40000, 3000000))
-	rapid.Check(t, func(rt *rapid.T) {
+	ev.Check(t, func(rt *rapid.T) {
 		var c *Case
 		var labels []string
 		switch rapid.IntRange(0, 9).Draw(rt, "ctor") {
